@@ -61,6 +61,18 @@ Proof.
 Qed.
 Print Assumptions C04_marker_once.
 
+(* the loss is reported whatever happens in between: any continuation of any length; the
+   first pass after the grace period that still finds the job unresolved fails it with the
+   status recorded at detection *)
+Theorem C04_loss_reported_in_any_continuation : forall s1 j x1 t0 st tr x2,
+    AllJ s1 -> get_job s1 j = Some x1 -> kind x1 = KApply -> worker_lost x1 = Some (t0, st) ->
+    get_job (run_from s1 tr) j = Some x2 -> incache x2 = true -> ready x2 = false ->
+    lost_timeout x1 < now (run_from s1 tr) - t0 ->
+    ready (tick_job (run_from s1 tr) x2) = true
+    /\ value (tick_job (run_from s1 tr) x2) = Some (PLost st j).
+Proof. exact loss_reported_in_any_continuation. Qed.
+Print Assumptions C04_loss_reported_in_any_continuation.
+
 Theorem C04_terminate_job : forall s x p,
     kind x = KApply -> incache x = true -> ready x = false -> worker_lost x = None ->
     acked_by_gone (reaped s) (kept s) x = Some p -> memZ p (reaped s) = true ->
